@@ -105,6 +105,7 @@ type pendingOp struct {
 	t      string
 	v      int
 	rep    int
+	cancel int
 	atGate chan struct{}
 	go_    chan struct{}
 	done   chan struct{}
@@ -603,12 +604,13 @@ func (w *world) opProposePre(op ledgerOp) {
 	if n == nil || t == nil {
 		return
 	}
-	p := &pendingOp{kind: "P", node: op.N, t: op.T}
+	p := &pendingOp{kind: "P", node: op.N, t: op.T, cancel: op.Cancel}
 	tc := *t
+	ctx := w.opCtx(op)
 	gated := w.startSplit(p, func() {
-		p.vrx, p.err = n.ab.CreateLeaf(w.ctx, &tc)
+		p.vrx, p.err = n.ab.CreateLeaf(ctx, &tc)
 		if p.err != nil && (errors.Is(p.err, accountant.ErrLeafRejected) || errors.Is(p.err, accountant.ErrTransferringFoundsFailure) ||
-			errors.Is(p.err, accountant.ErrDoubleSpending)) {
+			errors.Is(p.err, accountant.ErrDoubleSpending) || (op.Cancel > 0 && errors.Is(p.err, accountant.ErrLeafValidationProcessStopped))) {
 			// CreateLeaf's own failures are ErrNewLeafRejected / ErrUnexpected; these classes come from validating a tip
 			p.err = errTipInvalid
 		}
@@ -619,6 +621,15 @@ func (w *world) opProposePre(op ledgerOp) {
 		return
 	}
 	w.emit(event{"a": "ProposePre", "n": op.N, "t": op.T, "res": classify(p.err, p.panicv), "k": op.K})
+}
+
+// opCtx is the context of the caller of a proposal or delivery: the world's, or one that is cancelled at its k-th
+// inspection (a client or peer that went away while the node was validating tips).
+func (w *world) opCtx(op ledgerOp) context.Context {
+	if op.Cancel > 0 {
+		return newCountCtx(op.Cancel)
+	}
+	return w.ctx
 }
 
 func (w *world) opCommit(op ledgerOp) {
@@ -635,13 +646,20 @@ func (w *world) opCommit(op ledgerOp) {
 	switch p.kind {
 	case "P":
 		e := event{"a": "ProposeCommit", "n": p.node, "t": p.t, "res": res, "k": op.K, "new": []event{}}
+		if p.cancel > 0 {
+			e["cancel"] = p.cancel
+		}
 		if res == "ok" {
 			id := w.addVertex(p.vrx, op.Id)
 			e["new"] = []event{w.vtxRec(id)}
 		}
 		w.emitSt(e, n)
 	case "D":
-		w.emitSt(event{"a": "DeliverCommit", "n": p.node, "v": p.v, "rep": p.rep, "res": res, "k": op.K}, n)
+		e := event{"a": "DeliverCommit", "n": p.node, "v": p.v, "rep": p.rep, "res": res, "k": op.K}
+		if p.cancel > 0 {
+			e["cancel"] = p.cancel
+		}
+		w.emitSt(e, n)
 	}
 	w.drainSignal(n)
 }
@@ -662,9 +680,10 @@ func (w *world) opDeliverPre(op ledgerOp) {
 	if n == nil || !ok {
 		return
 	}
-	p := &pendingOp{kind: "D", node: op.N, v: id}
+	p := &pendingOp{kind: "D", node: op.N, v: id, cancel: op.Cancel}
 	vc := w.vtx[id-1]
-	gated := w.startSplit(p, func() { p.err = n.ab.AddLeaf(w.ctx, &vc) })
+	ctx := w.opCtx(op)
+	gated := w.startSplit(p, func() { p.err = n.ab.AddLeaf(ctx, &vc) })
 	if gated {
 		w.pending[op.K] = p
 		w.emit(event{"a": "DeliverPre", "n": op.N, "v": id, "res": "pass", "k": op.K})
@@ -807,6 +826,10 @@ func (w *world) opTruncate(op ledgerOp) {
 	}
 	if op.Cancel > 0 {
 		// the node's root context is gone: the process is on its way out, the book takes no further operation
+		if op.Kind == "cont" {
+			w.emitSt(event{"a": "TruncateCancelled", "n": op.N, "res": res, "k": op.Cancel, "cont": true}, n)
+			return
+		}
 		w.emitSt(event{"a": "TruncateCancelled", "n": op.N, "res": res, "k": op.Cancel}, n)
 		n.ab.VerifClose()
 		delete(w.nodes, op.N)
